@@ -51,6 +51,8 @@ def global_name(I, relpath, name):
 
 
 def getattr_value(I, o, attr):
+    if hasattr(o, "py_getattr"):
+        return o.py_getattr(I, attr)
     if isinstance(o, Builtin):
         full = o.name + "." + attr
         if full in ("np.nan", "numpy.nan"):
@@ -92,6 +94,8 @@ def getattr_value(I, o, attr):
 
 
 def getitem_value(I, o, k):
+    if hasattr(o, "py_getitem"):
+        return o.py_getitem(I, k)
     if isinstance(o, (list, tuple)):
         if isinstance(k, In) and z3.is_int_value(z3.simplify(k.v)):
             return o[z3.simplify(k.v).as_long()]
@@ -127,6 +131,11 @@ def identical(a, b):
 
 
 def contains(I, container, item):
+    if isinstance(container, Obj) and container.kind == "objmap":
+        if not isinstance(item, KeyV):
+            raise Unsupported("membership of %r" % (item,))
+        I.add_key(item.t)
+        return I.heap[container.oid]["dom"](item.t)
     if isinstance(container, Obj) and container.kind == "map":
         if not isinstance(item, KeyV):
             raise Unsupported("membership of %r" % (item,))
@@ -200,6 +209,8 @@ def trunc(v):
 
 # ------------------------------------------------------------------------------ methods of values
 def call_method(I, r, name, args, kwargs):
+    if hasattr(r, "py_call_method"):
+        return r.py_call_method(I, name, args, kwargs)
     if isinstance(r, KeyV):
         if name == "static_hashing":
             k = sh(r.t)
@@ -324,6 +335,9 @@ def call_builtin(I, name, args, kwargs):
     if name == "defaultdict":
         if len(args) == 1 and isinstance(args[0], Builtin) and args[0].name == "float":
             return I.new_map(lambda k: Fl(0), lambda k: FALSE, "float", "defaultdict")
+        ext = I.registry.get("builtin:defaultdict")
+        if ext is not None:
+            return ext(I, args, kwargs)
         raise Unsupported("defaultdict(%r)" % (args,))
     if name == "dict":
         if not args:
